@@ -80,6 +80,7 @@ class Scratch:
         os.makedirs(self.root)
         self.repo = os.path.join(self.root, "repo")
         sh(["rsync", "-a", "--exclude", "/target", "--exclude", ".git", REPO + "/", self.repo + "/"], check=True)
+        self.pristine_hash = tree_hash(self.repo)
         return self
 
     def __exit__(self, *a):
